@@ -664,12 +664,23 @@ type Ghost struct {
 
 // ghostFor resolves Ref -5: the most recent ghost of the module whose identifier exists by now (else the most recent one).
 func (w *World) ghostFor(module string, op *Op) *Ghost {
-	if op.Ref != -5 {
-		return nil
-	}
 	m := w.Wrk
 	if module == "bcn" {
 		m = w.Bcn
+	}
+	if op.Ref != -5 {
+		// an attempt by an explicitly chosen (usually unentitled) party is, half of the time, aimed where a stale
+		// entitlement could exist: at an identifier that party used in a rolled-back transaction and that has
+		// meanwhile been given to somebody else
+		if op.Actor >= 0 && op.Ref >= 0 && op.Peer%2 == 0 {
+			for i := len(w.Ghosts) - 1; i >= 0; i-- {
+				g := &w.Ghosts[i]
+				if r := m.Reg(g.ID); g.Module == module && r != nil && r.Owner != w.acct(g.Actor).Key() {
+					return g
+				}
+			}
+		}
+		return nil
 	}
 	var last, live *Ghost
 	for i := len(w.Ghosts) - 1; i >= 0; i-- {
